@@ -47,11 +47,13 @@ def rule_c04(an, res):
                         seg = b.seg
                         if seg.cond('PRESENT') is not True:
                             continue
-                        ys = yielded_values(seg)
-                        if cm.name == 'ut_set':
-                            ys = [y for y in ys]
-                        if not ys:
+                        from rules_misc import outcome
+                        y = outcome(b, roles)
+                        served = (isinstance(y, tuple) and y and ((y[0] == 'ctor' and typeclass(y[1]) == 'optional' and bool(y[2])
+                                                                  and y[2][0] != ('global', 'nullopt')) or y == ('bool', True)))
+                        if not served:
                             continue
+                        ys = [(y, site_of_seg(seg, m))]
                         if cm.name in TTL_CACHES:
                             live = [c for c in seg.conds if c[0] == 'EXPIRED' and c[2] is False and c[1][0].kind == 'FOUND'
                                     and same_key(c[1][0], seg) and c[1][1] in clocks]
@@ -195,6 +197,32 @@ def check_purge_shape(res, prop, cm, roles, m, top):
         exits = top.loop_exits.get(id(lp), [])
         ok = True
         why = None
+        if any(e.kind == 'AUX_DEL' for s in segs for e in s.effects):
+            # pop-front style purge: while the list is non-empty and its head is expired (inclusive), drop the head and its key
+            for s in segs:
+                ex = [c for c in s.conds if c[0] in ('EXPIRED', 'EXPIRED_STRICT')]
+                ne = s.cond('AUX_NONEMPTY')
+                if s.status == 'continue':
+                    unb = s.effs('UNBIND')
+                    dels = [e for e in s.effects if e.kind == 'AUX_DEL' and e.aux == aux]
+                    if not (ne is True and ex and ex[0][0] == 'EXPIRED' and ex[0][2] is True and ex[0][1][1] in clocks
+                            and isinstance(ex[0][1][0], lift.Ent) and ex[0][1][0].kind == 'FRONT'):
+                        ok, why = False, 'purge removes the head without the inclusive test now >= deadline(head) on a non-empty list'
+                    elif not (len(unb) == 1 and unb[0].ent.kind == 'VIA' and unb[0].ent.arg[0] == 'FRONT' and len(dels) == 1
+                              and s.effects.index(unb[0]) < s.effects.index(dels[0])):
+                        ok, why = False, 'purge iteration does not remove exactly the head node and its key (key first)'
+                else:
+                    if not ((ex and ex[0][0] == 'EXPIRED' and ex[0][2] is False) or (ne is False and not ex)):
+                        ok, why = False, 'purge stops although the head is expired'
+            for s in exits:
+                ex = [c for c in s.conds if c[0] in ('EXPIRED', 'EXPIRED_STRICT')]
+                ne = s.cond('AUX_NONEMPTY')
+                if not ((ne is False and not ex) or (ex and ex[0][0] == 'EXPIRED' and ex[0][2] is False)):
+                    ok, why = False, 'purge loop exits for a reason other than an empty list or a live head (%s)' % ' '.join(s.valuation())
+            res.ob('R-PURGE-SHAPE', ok=ok)
+            if not ok:
+                V(res, prop, 'R-PURGE-SHAPE', cm, m.key(), why, lp.site, 'purge in %s: %s' % (m.key(), why))
+            continue
         # loop variable starts at begin(): last LOCAL write before the loop to a variable that the loop advances
         pos = top.order.index(('loop', i))
         lvname = None
@@ -220,7 +248,8 @@ def check_purge_shape(res, prop, cm, roles, m, top):
                 if not (len(adv) == 1 and isinstance(adv[0].val, tuple) and adv[0].val[0] == 'adv' and adv[0].val[1] == 1):
                     ok, why = False, 'purge does not advance node by node'
             elif s.status in ('break', 'ret'):
-                if not (ex and ex[0][2] is False):
+                atend = [c for c in s.conds if c[0] == 'IT_AT_END']
+                if not ((ex and ex[0][2] is False) or (atend and atend[-1][2] is True and not ex)):
                     ok, why = False, 'purge stops although the current node is expired'
         for s in exits:
             ex = [c for c in s.conds if c[0] in ('EXPIRED', 'EXPIRED_STRICT')]
@@ -231,6 +260,17 @@ def check_purge_shape(res, prop, cm, roles, m, top):
         # the range erase
         er = [e for e in top.effects if e.kind == 'AUX_ERASE_RANGE' and e.aux == aux]
         noerase_ok = any(c[0] == 'IT_AT_BEGIN' and c[2] is True for c in top.conds)
+        # ... or the path established that the purge tally is still zero (no node was visited)
+        for c in top.conds:
+            if c[0] == 'OTHER' and isinstance(c[4], tuple) and c[4][0] == 'cmp':
+                nc = lift.norm_cmp(c[4])
+                atoms, cst, nop = nc
+                ks = list(atoms)
+                if len(ks) == 1 and isinstance(ks[0], tuple) and ks[0][0] == 'lv' and ks[0][2] == lp.id and cst == 0:
+                    zero = (nop == '==' and c[2]) or (nop == '!=' and not c[2]) or (nop == '<' and atoms[ks[0]] == -1 and not c[2]) \
+                        or (nop == '<=' and atoms[ks[0]] == 1 and c[2])
+                    if zero:
+                        noerase_ok = True
         if er:
             e = er[0]
             if not (is_begin_of(resolve_local(top, e.first, None), aux) and isinstance(e.last, tuple) and e.last[0] == 'lv' and e.last[1] == lvname):
@@ -534,7 +574,7 @@ def rule_c17(an, res):
                         else:
                             if unb:
                                 ok, why = False, 'removal on a path that leaves the loop'
-                            if not (ex and ex[0][2] is False and ex[0][0] == 'EXPIRED'):
+                            if not ((ex and ex[0][2] is False and ex[0][0] == 'EXPIRED') or (ne is False and not ex)):
                                 ok, why = False, 'loop is left although the head is expired (or without testing it)'
                     for s in exits:
                         ne = s.cond('NONEMPTY')
@@ -554,16 +594,16 @@ def rule_c17(an, res):
                 okt = False
                 how = None
                 if isinstance(r, tuple) and r[0] == 'lv':
-                    name = r[1]
+                    name = ops.tally_var(r)
                     okt = True
                     how = 'counter'
-                    init = [e for e in top.effects if e.kind == 'LOCAL' and e.how == 'decl' and e.loc[1] == name]
+                    init = ops.local_writes(top, name, decl=True)
                     if len(init) != 1 or init[0].val != ('int', 0):
                         okt = False
                     for s in segs:
-                        incs = [e for e in s.effects if e.kind == 'LOCAL' and e.loc[1] == name]
+                        incs = ops.local_writes(s, name)
                         want = 1 if s in removing else 0
-                        good = [e for e in incs if isinstance(e.val, tuple) and e.val[0] == 'add' and e.val[2] == 1]
+                        good = [e for e in incs if ops.is_increment(e, name)]
                         if len(incs) != want or len(good) != want:
                             okt = False
                 elif isinstance(r, tuple) and r[0] == 'bin' and r[1] == '-':
@@ -598,15 +638,15 @@ def check_purge_tally(res, prop, cm, roles, m, top):
     r = top.ret
     ok = False
     if pl and isinstance(r, tuple) and r[0] == 'lv':
-        name = r[1]
+        name = ops.tally_var(r)
         lp, segs = top.loops[pl[0]]
         ok = r[2] == lp.id
-        init = [e for e in top.effects if e.kind == 'LOCAL' and e.how == 'decl' and e.loc[1] == name]
+        init = ops.local_writes(top, name, decl=True)
         ok = ok and len(init) == 1 and init[0].val == ('int', 0)
         for s in segs:
-            incs = [e for e in s.effects if e.kind == 'LOCAL' and e.loc[1] == name]
+            incs = ops.local_writes(s, name)
             want = 1 if s.effs('UNBIND') else 0
-            good = [e for e in incs if isinstance(e.val, tuple) and e.val[0] == 'add' and e.val[2] == 1]
+            good = [e for e in incs if ops.is_increment(e, name)]
             if len(incs) != want or len(good) != want:
                 ok = False
     res.ob('R-CLEAN-TALLY', ok=ok)
